@@ -178,7 +178,11 @@ def okT (nLabels : Nat) (t : TaggerW) : Bool :=
   && (!(cellReading t.cls) || (t.label == some 0 && nLabels == 1))
   && (!(t.kind == .cellBoundary) || t.label == some 0)
 
-/-- the decidable side condition of `footprintsSound_concrete` -/
+/-- the decidable side condition of `footprintsSound_concrete`: the wiring uses only the tagger classes / handler kinds of this
+world and has at most one internal state.  It is a condition on the WIRING only: that the configuration is a one-level system
+(point masses, `setting.number_of_node_levels == 1`) with one pair-factor type is the modelling assumption of `CState` / `yieldCls`
+and is not visible in a `Wiring` (several shipped composite-object configurations pass `Supported`; the world is not a model of
+them — `harness/fpcorr.py` judges only traces with one node level). -/
 def Supported (c : Wiring) : Bool :=
   decide (c.labels.length ≤ 1) && c.taggers.all (okT c.labels.length)
 
